@@ -7,4 +7,5 @@ CONSTANTS
 INVARIANT StateOK
 INVARIANT UnsatOK
 INVARIANT LevelsNested
+INVARIANT TwoWatch
 CHECK_DEADLOCK FALSE
